@@ -21,7 +21,7 @@ BOUNDS = ("(1) Protocol: the real startprint/_sendnext/_send/_listen code is dri
           "against a Marlin-style firmware model (line numbers, XOR checksum, 'Resend: n' + 'ok'). "
           "Cell grid: 5 concrete jobs (comment-only and trailing-comment lines, a layered job with "
           "z-hops and an end script, a 14-line job) x number K of transmissions that may be "
-          "corrupted (quick 5, thorough 8; for the long job a window of 4 starting at transmission "
+          "corrupted (quick 5, thorough up to 10; for the long job a window of 4 starting at transmission "
           "8-11, i.e. two-digit line numbers). Solver over: which of the "
           "first K job transmissions are corrupted (2^K patterns, including repeated corruption of "
           "a resent line). Checked: every frame is N<k> <cmd>*<xor>, numbering restarts at 0 after "
@@ -382,7 +382,7 @@ def cells(tier):
     out = []
     quick = tier == "quick"
     for job in JOBS:
-        for K in ((5,) if quick else (4, 8)):
+        for K in ((5,) if quick else (4, 8, 10)):
             if job == "long":
                 continue
             out.append(Cell(f"protocol|job={job}|K={K}", _make_protocol(job, K),
